@@ -1213,4 +1213,17 @@ theorem Files.damage_getLast {f : Files} (hS : f.Sorted) (x : Int)
         · exact Files.getLast_max hS hl y e
   · rw [Files.damage_of_not_mem hxm]
 
+
+/-- a crash that comes no later than the last step before the commit rename leaves the final names untouched -/
+theorem crashed_before_commit {cfg : Cfg} {d : Dir} (hc : check cfg d = .ok ())
+    (hf : cfg.backend = .orbax → InPlaceFree cfg d) {k : Nat} (hk : k ≤ (prepare cfg d).length) :
+    (crashed cfg d k).ckpts = d.ckpts := by
+  unfold crashed
+  rw [saveSteps_ok hc]
+  simp only
+  rw [List.take_append_of_le_length (by simp; omega), List.take_append_of_le_length hk]
+  apply run_offCkpt
+  intro x hx
+  exact prepare_offCkpt hf x (List.mem_of_mem_take hx)
+
 end Flax.Ckpt
